@@ -530,11 +530,23 @@ func scParseInt(i *interpreter, fr *frame, a []value) (value, bool) {
 }
 
 func scParseFloat(i *interpreter, fr *frame, a []value) (value, bool) {
-	if sv, ok := a[0].(string); ok {
-		f, e := strconv.ParseFloat(sv, int(asInt64(a[1])))
-		return tuple{f, i.mkError(fr, e)}, true
+	sv, ok := a[0].(string)
+	if !ok {
+		// enumerate the feasible concrete texts (the callers pass short, lexer-constrained
+		// number tokens) and use the real library on each
+		ss := a[0].(symStr)
+		bs := make([]byte, len(ss.b))
+		for k, e := range ss.b {
+			if se, isSym := e.(symInt); isSym {
+				bs[k] = byte(i.concretize(se.t))
+			} else {
+				bs[k] = e.(uint8)
+			}
+		}
+		sv = string(bs)
 	}
-	panic(pathAbort{"unsupported: strconv.ParseFloat on symbolic input"})
+	f, e := strconv.ParseFloat(sv, int(asInt64(a[1])))
+	return tuple{f, i.mkError(fr, e)}, true
 }
 
 func scFormatInt(i *interpreter, fr *frame, a []value) (value, bool) {
